@@ -20,6 +20,9 @@ import (
 	"bufio"
 	"encoding/json"
 	"fmt"
+	"go/ast"
+	"go/parser"
+	"go/token"
 	"io"
 	"net"
 	"os"
@@ -965,6 +968,234 @@ func c14RunSiblingSlices(id int, mt MemMapType) c14Case {
 	return c
 }
 
+// ---- Flushes parked in the queue-full retry when the session dies ----------------------------------
+// Session A's peer is a raw socket that completes the handshake and then never reads: A's send queue
+// fills up and further Flushes wait in their 10 x 10 ms retry loop with the outgoing chain still in the
+// stream's sendBuf.  Then A is closed locally, or its peer dies.  Session.Close / exitErr notify every
+// stream first and recycle later (posted cleanup): every exit of Flush — the close-notified one too —
+// must give the chain back, or nobody does.  The sibling pair B keeps the shared manager alive; its free
+// lists are counted before the Flushes park and after A's cleanup.
+func c14RawServerHandshake(srv *net.UnixConn, mt MemMapType) error {
+	if mt == MemMapTypeDevShmFile {
+		return nil // protocol 2: the client announces its memory and expects nothing
+	}
+	rd := func(n int) ([]byte, error) {
+		b := make([]byte, n)
+		srv.SetReadDeadline(time.Now().Add(8 * time.Second))
+		_, err := io.ReadFull(srv, b)
+		return b, err
+	}
+	wr := func(t eventType) error {
+		h := header(make([]byte, headerSize))
+		h.encode(headerSize, maxSupportProtoVersion, t)
+		_, err := srv.Write(h)
+		return err
+	}
+	if _, err := rd(headerSize); err != nil {
+		return err
+	}
+	if err := wr(typeExchangeProtoVersion); err != nil {
+		return err
+	}
+	hb, err := rd(headerSize)
+	if err != nil {
+		return err
+	}
+	if _, err := rd(int(header(hb).Length()) - headerSize); err != nil {
+		return err
+	}
+	if err := wr(typeAckReadyRecvFD); err != nil {
+		return err
+	}
+	buf, oob := make([]byte, 16), make([]byte, 256)
+	srv.SetReadDeadline(time.Now().Add(8 * time.Second))
+	_, oobn, _, _, err := srv.ReadMsgUnix(buf, oob)
+	if err != nil {
+		return err
+	}
+	if msgs, e := syscall.ParseSocketControlMessage(oob[:oobn]); e == nil {
+		for i := range msgs {
+			if fds, e := syscall.ParseUnixRights(&msgs[i]); e == nil {
+				for _, fd := range fds {
+					syscall.Close(fd)
+				}
+			}
+		}
+	}
+	return wr(typeAckShareMemory)
+}
+
+func c14RunParkedFlush(id int, mt MemMapType, peerDies bool) c14Case {
+	how := "local-close"
+	if peerDies {
+		how = "peer-death"
+	}
+	c := c14Case{ID: id, Kind: "slices", Name: fmt.Sprintf("flush-parked-in-queue-full-retry-at-%s-mt%d", how, mt), Later: map[string]int{}, Pending: map[string]int{}}
+	prefix := c14Prefix(id)
+	bufPath := prefix + bufferPathSuffix
+	confB := c14Conf(prefix, prefix+"_qb", mt)
+	confB.ShareMemoryBufferCap = 8 << 20
+	csB, ssB, err := c14Sessions(id, "b", confB)
+	if err != nil {
+		c.Kind, c.Err = "broken", "harness: "+err.Error()
+		return c
+	}
+	cli, srv, err := c14Pair(id, "p")
+	if err != nil {
+		c.Kind, c.Err = "broken", "harness: "+err.Error()
+		return c
+	}
+	hsErr := make(chan error, 1)
+	go func() { hsErr <- c14RawServerHandshake(srv.(*net.UnixConn), mt) }()
+	confA := c14Conf(prefix, prefix+"_qa", mt)
+	confA.ShareMemoryBufferCap = 8 << 20
+	confA.QueueCap = 16
+	csA, err := newSession(confA, cli, true)
+	if err == nil {
+		err = <-hsErr
+	}
+	if err != nil {
+		c.Kind, c.Err = "broken", "harness: session A against the raw peer: "+err.Error()
+		return c
+	}
+	fill := func(n int, b byte) []byte {
+		p := make([]byte, n)
+		for i := range p {
+			p[i] = b
+		}
+		return p
+	}
+	// fill A's send queue: the raw peer never consumes
+	s0, _ := csA.OpenStream()
+	for i := 0; i < int(confA.QueueCap); i++ {
+		s0.BufferWriter().WriteBytes(fill(64, 9))
+		if err := s0.Flush(false); err != nil {
+			c.Kind, c.Err = "broken", fmt.Sprintf("harness: filling the queue: flush %d: %v", i, err)
+			return c
+		}
+	}
+	base, ok := c14FreeCounts(bufPath)
+	if !ok {
+		c.Kind, c.Err = "broken", "harness: the shared buffer manager is not registered"
+		return c
+	}
+	qfull0 := atomic.LoadUint64(&csA.stats.queueFullErrorCount)
+	const parkedN = 5
+	var wg sync.WaitGroup
+	var mu sync.Mutex
+	for i := 0; i < parkedN; i++ {
+		st, _ := csA.OpenStream()
+		st.BufferWriter().WriteBytes(fill(40<<10, byte(i)))
+		wg.Add(1)
+		go func(d time.Duration) {
+			defer wg.Done()
+			time.Sleep(d)
+			err := st.Flush(false)
+			mu.Lock()
+			if err == ErrQueueFull {
+				c.Pending["queue-full"]++
+			} else {
+				c.Pending[c14ErrClass(err)]++
+			}
+			mu.Unlock()
+		}(time.Duration(i*15) * time.Millisecond)
+	}
+	t0 := time.Now()
+	for atomic.LoadUint64(&csA.stats.queueFullErrorCount) == qfull0 && time.Since(t0) < 3*time.Second {
+		time.Sleep(time.Millisecond)
+	}
+	time.Sleep(25 * time.Millisecond)
+	parked, _ := c14FreeCounts(bufPath)
+	c.Later["slices-in-parked-flushes"] = c14SumInts(base) - c14SumInts(parked)
+	if peerDies {
+		srv.Close()
+	} else {
+		csA.Close()
+	}
+	done := make(chan struct{})
+	go func() { wg.Wait(); close(done) }()
+	select {
+	case <-done:
+	case <-time.After(8 * time.Second):
+		c.Hung = 1
+		c.Oracle = append(c.Oracle, "C14:pending-call-hangs-after-session-closed")
+	}
+	t0 = time.Now()
+	for !csA.IsClosed() && time.Since(t0) < 8*time.Second {
+		time.Sleep(20 * time.Millisecond)
+	}
+	if !csA.IsClosed() {
+		c.Oracle = append(c.Oracle, "C14:survivor-not-closed-after-peer-death")
+	}
+	time.Sleep(2600 * time.Millisecond)
+	after, ok := c14FreeCounts(bufPath)
+	if !ok {
+		c.Oracle = append(c.Oracle, "C14:shared-buffer-manager-gone-while-sibling-alive")
+		return c
+	}
+	c.Later["slices-missing-after-cleanup"] = c14SumInts(base) - c14SumInts(after)
+	for i := range base {
+		if i < len(after) && after[i] < base[i] {
+			c.Oracle = append(c.Oracle, "C14:flush-parked-at-session-death-loses-slices")
+			break
+		}
+	}
+	if c.Pending["stream-closed"] > 0 {
+		c.Feat = append(c.Feat, "flush-woken-by-close-notification")
+	} else {
+		c.Feat = append(c.Feat, "retry-window-missed")
+	}
+	if csB.IsClosed() || ssB.IsClosed() {
+		c.Oracle = append(c.Oracle, "C14:sibling-session-closed-by-another-sessions-death")
+	}
+	srv.Close()
+	csA.Close()
+	csB.Close()
+	ssB.Close()
+	c.Residue = c14WaitClean(id, nil, 4*time.Second)
+	for _, r := range c.Residue {
+		c.Oracle = append(c.Oracle, "C14:closed-sessions-leave-"+strings.SplitN(r, ":", 2)[0])
+	}
+	c.Feat = append(c.Feat, "shared-manager", "send-queue-full", "raw-peer-never-reads", how)
+	return c
+}
+
+// every exit of Flush's queue-full retry loop must reach the common `if err != nil { buf.recycle() }`: no
+// return statement inside the loop's select.  Checked on the current source of stream.go ("" = as modelled).
+func c14FlushShape() string {
+	fset := token.NewFileSet()
+	f, err := parser.ParseFile(fset, "stream.go", nil, 0)
+	if err != nil {
+		return "cannot parse stream.go: " + err.Error()
+	}
+	for _, d := range f.Decls {
+		fd, ok := d.(*ast.FuncDecl)
+		if !ok || fd.Name.Name != "Flush" || fd.Body == nil {
+			continue
+		}
+		bad, loops := "", 0
+		ast.Inspect(fd.Body, func(n ast.Node) bool {
+			fs, ok := n.(*ast.ForStmt)
+			if !ok {
+				return true
+			}
+			loops++
+			ast.Inspect(fs.Body, func(m ast.Node) bool {
+				if _, ok := m.(*ast.ReturnStmt); ok {
+					bad = "Flush's queue-full retry loop contains a return: that exit skips the common buf.recycle()"
+				}
+				return true
+			})
+			return true
+		})
+		if loops == 0 {
+			return "Flush has no retry loop any more"
+		}
+		return bad
+	}
+	return "Stream.Flush not found in stream.go"
+}
+
 // ---- scenarios that may take the process down: run in a child -----------------------------------
 func c14ChildRace() {
 	id := 9000
@@ -1258,6 +1489,7 @@ func TestVerif_C14(t *testing.T) {
 	}
 	id := 0
 	next := func() int { id++; return id }
+	emit(c14Case{ID: 0, Kind: "source", Name: "every-exit-of-the-flush-retry-loop-reaches-the-common-recycle", Err: c14FlushShape()})
 	for round := 0; round < rounds; round++ {
 		var wg sync.WaitGroup
 		run := func(f func() c14Case) {
@@ -1268,8 +1500,10 @@ func TestVerif_C14(t *testing.T) {
 			mt := mt
 			i1, i2, i3, i4, i5, i6, i7 := next(), next(), next(), next(), next(), next(), next()
 			i8, i9, i10 := next(), next(), next()
-			i11 := next()
+			i11, i12, i13 := next(), next(), next()
 			run(func() c14Case { return c14RunSiblingSlices(i11, mt) })
+			run(func() c14Case { return c14RunParkedFlush(i12, mt, false) })
+			run(func() c14Case { return c14RunParkedFlush(i13, mt, true) })
 			run(func() c14Case {
 				return c14RunKilled(i8, fmt.Sprintf("killed-peer-hung-with-unread-bytes-readers-pending-mt%d", mt), 2, false, true, mt, 1)
 			})
